@@ -22,10 +22,11 @@ the classes of `mro(cls)[1:]` hold under the same name (`none`: the class skips 
 declaration), and `Outcome.reached` says the merge got to the re-validation
 decision (it is `ok` or `invalid _`).
 
-Two clauses of the statement are FALSE of the code as it is and are refuted
-below from concrete witnesses (replayed on the implementation by the harness):
-`names` of a dict-declared Selector is not inherited, and a failed
-`add_parameter` leaves the invalid Parameter installed.
+One clause of the statement is FALSE of the code as it is and is refuted below
+from a concrete witness (replayed on the implementation by the harness): `names`
+of a dict-declared Selector is not inherited.  (A failed `add_parameter` used to
+leave the invalid Parameter installed; repaired in /repo 9350ff5, and the model
+follows the repaired code: `failed_add_parameter_changes_nothing`.)
 -/
 import ParamVerif.Store.InheritLemmas
 
@@ -442,15 +443,35 @@ calls no class owns a Parameter whose non-None default violates its own constrai
 def C11_full : Prop :=
   ∀ (rx : String → String → Bool) (ops : List Op), NoInvalidDefault rx (run rx ops 0 World.empty []).1
 
-/-- What holds of the code: the same, for histories in which no `add_parameter` call failed
-(`noFailedAdd`).  Class creation itself needs no such proviso: a class whose merge fails does
-not come into existence.  The MROs in `ops` are arbitrary data. -/
-theorem no_class_with_nonNone_default_violating_constraints_partial (rx : String → String → Bool)
-    (ops : List Op) (h : noFailedAdd rx ops 0 World.empty = true) :
+/-- **No class exists whose non-None Parameter default contradicts its own bounds or type** —
+after any history of class declarations and `add_parameter` calls, successful or not, over
+arbitrary MRO data. -/
+theorem no_class_with_nonNone_default_violating_constraints (rx : String → String → Bool) (ops : List Op) :
     NoInvalidDefault rx (run rx ops 0 World.empty []).1 := by
   intro c n p hp
   exact (run_preserves_inv rx (construct_ownValid rx) ops 0 World.empty []
-    (by intro c n p hp; cases hp) h c n p hp).2
+    (by intro c n p hp; cases hp) c n p hp).2
+
+theorem C11_full_holds : C11_full := fun rx ops =>
+  no_class_with_nonNone_default_violating_constraints rx ops
+
+/-- **A failing operation leaves every observable of the hierarchy as before**: when class
+creation or `add_parameter` raises (constructor error or merge error) or is skipped, the world —
+which classes exist, their MROs, every Parameter every class owns, hence every `Cls.param[name]` —
+is exactly what it was. -/
+theorem failed_add_parameter_changes_nothing (rx : String → String → Bool) (i : Nat) (w : World)
+    (cls name : Nat) (decl : Decl)
+    (h : (step rx i w (.addParam cls name decl)).2.outcome ≠ .ok) :
+    (step rx i w (.addParam cls name decl)).1 = w ∧
+      ∀ c n, (step rx i w (.addParam cls name decl)).1.resolve c n = w.resolve c n := by
+  have := step_not_ok_unchanged rx i w (.addParam cls name decl) h
+  exact ⟨this, fun c n => by rw [this]⟩
+
+theorem failed_class_creation_changes_nothing (rx : String → String → Bool) (i : Nat) (w : World)
+    (cls : Nat) (mro : List Nat) (decls : List (Nat × Decl))
+    (h : (step rx i w (.declare cls mro decls)).2.outcome ≠ .ok) :
+    (step rx i w (.declare cls mro decls)).1 = w :=
+  step_not_ok_unchanged rx i w _ h
 
 def rxTrue : String → String → Bool := fun _ _ => true
 
@@ -459,31 +480,18 @@ def mkDecl (T : PType) (args : List (Slot × Val)) (inst : Option Bool := none) 
 
 def intV (n : Int) : Val := atomV (.int n)
 
-/-- witness (replayed on the implementation as a directed case of the harness):
-`A: x = Number(5, bounds=(0, 10))`, `N(A): pass`, `N.param.add_parameter('x', Number(default=50))`
-raises, but `N.x == 50` stays installed. -/
-def witnessFailedAdd : List Op :=
+/-- `A: x = Number(5, bounds=(0, 10))`, `N(A): pass`, `N.param.add_parameter('x', Number(default=50))`:
+the call raises and N keeps resolving `x` to A's Parameter (default 5) -/
+def failedAdd : List Op :=
   [.declare 0 [0] [(0, mkDecl .number [(.default, intV 5), (.bounds, ⟨.obj 1, .tuple [.int 0, .int 10]⟩)])],
    .declare 1 [1, 0] [],
    .addParam 1 0 (mkDecl .number [(.default, intV 50)])]
 
-theorem C11_full_refuted : ¬ C11_full := by
-  intro h
-  have h1 := h rxTrue witnessFailedAdd 1 0
-  have h2 : ((run rxTrue witnessFailedAdd 0 World.empty []).1.params 1 0).map (defaultOk rxTrue) = some false := by
-    decide
-  cases hp : (run rxTrue witnessFailedAdd 0 World.empty []).1.params 1 0 with
-  | none => rw [hp] at h2; cases h2
-  | some p =>
-    rw [hp] at h2
-    have := h1 p hp
-    simp only [Option.map_some, Option.some.injEq] at h2
-    rw [this] at h2
-    cases h2
-
-/-- the witness is excluded by the partial theorem's hypothesis, and only by it -/
-example : noFailedAdd rxTrue witnessFailedAdd 0 World.empty = false := by decide
-example : noFailedAdd rxTrue (witnessFailedAdd.take 2) 0 World.empty = true := by decide
+example : ((run rxTrue failedAdd 0 World.empty []).2.map (·.outcome)) =
+    [.ok, .ok, .mergeError 0 (.invalid .valueError)] := by decide
+example : ((run rxTrue failedAdd 0 World.empty []).1.params 1 0).isNone = true := by decide
+example : ((run rxTrue failedAdd 0 World.empty []).1.resolve 1 0).map (·.cfg .default) =
+    some (some (.atom (.int 5))) := by decide
 
 /-! ## `names` of a dict-declared Selector: a slot that is *not* inherited -/
 
@@ -537,8 +545,7 @@ namespace ParamVerif.Inherit
 
 /-- `Cls.param.add_parameter(name, P)` merges exactly as declaring `name = P` in the body of a
 new class with the same rest-of-MRO would: same constructed Parameter, same merge result (slots,
-flags, outcome).  The one difference is what happens to the class on failure: a class whose
-creation fails does not exist, whereas `add_parameter` has already installed the Parameter. -/
+flags, outcome); on failure neither leaves a trace (`failed_add_parameter_changes_nothing`). -/
 theorem add_parameter_same_as_declaration (rx : String → String → Bool) (i : Nat) (w : World)
     (cls cls' name : Nat) (decl : Decl) (m : List Nat)
     (hm : w.mro cls = some m) (hnew : w.mro cls' = none)
@@ -611,7 +618,6 @@ example : ((run rxTrue diamond 0 World.empty []).2.map (·.outcome)) = [.ok, .ok
 example : (((run rxTrue diamond 0 World.empty []).2.getLast?).map
     (fun o => o.merged.map (fun x => (x.2.typeChange, x.2.overridden, x.2.revalidated)))) =
     some [(false, true, true)] := by decide
-example : noFailedAdd rxTrue diamond 0 World.empty = true := by decide
 
 /-- a class that skips the declaration, then a conflicting grandchild: creation fails -/
 def skipThenConflict : List Op :=
